@@ -258,6 +258,56 @@ fn toeplitz_space(ctx: &Ctx, ns: &[usize], mmax: usize) {
     }
 }
 
+/// every bandwidth pair 0 <= m1, m2 < n for n = 6..10 (the property's full range) with two generic fillings: wide bands
+/// (m1 + m2 >= n) included, which the exhaustive and Toeplitz spaces only reach for n <= 5
+fn all_bandwidths_space(ctx: &Ctx, nmin: usize, nmax: usize) {
+    let mut cases = vec![];
+    for n in nmin..=nmax {
+        for m1 in 0..n {
+            for m2 in 0..n {
+                for fill in 0..2usize {
+                    cases.push((Cfg { n, m1, m2 }, fill));
+                }
+            }
+        }
+    }
+    ctx.lattice(
+        &format!("exact n={}..{}: EVERY bandwidth pair 0 <= m1, m2 < n x 2 generic fillings", nmin, nmax),
+        cases.len() as u64,
+        |idx| format!("n={} m1={} m2={} filling#{}", cases[idx as usize].0.n, cases[idx as usize].0.m1, cases[idx as usize].0.m2, cases[idx as usize].1),
+        |idx, acc| {
+            let (c, fill) = cases[idx as usize];
+            let sl = slots(c);
+            let vals: Vec<Rat> = sl
+                .iter()
+                .map(|&(i, j)| {
+                    if i == j {
+                        r(if fill == 0 { -(c.n as i64) - 3 - (i % 2) as i64 } else { [5, -7, 6][i % 3] })
+                    } else if fill == 0 {
+                        r(((i * 3 + j * 5) % 5) as i64 - 2)
+                    } else {
+                        r(if (i + 2 * j) % 4 == 0 { 0 } else { ((i + j) % 3) as i64 - 1 })
+                    }
+                })
+                .collect();
+            let dm = dense(c, &sl, &vals);
+            classify(c, &dm, acc);
+            acc.nontriv("order >= 6");
+            if c.m1 + c.m2 >= c.n {
+                acc.nontriv("wide band (m1 + m2 >= n)");
+            }
+            let mut local = Acc::new("t");
+            let res = catch(|| check_exact(c, &sl, &vals, &mut local));
+            let key = || format!("n={} m1={} m2={} filling#{} band={}", c.n, c.m1, c.m2, fill, model::show(&dm));
+            match res {
+                Ok(Ok(())) => {}
+                Ok(Err(e)) => acc.fail(idx, key(), e),
+                Err(p) => acc.fail(idx, key(), format!("unexpected panic: {}", p)),
+            }
+        },
+    );
+}
+
 // --- arithmetic operators ---------------------------------------------------------------------------
 fn arithmetic_case(c: Cfg) -> Result<(), String> {
     let sl = slots(c);
@@ -807,9 +857,10 @@ fn main() {
     ctx.assume("n>5 only through Toeplitz and deviation-bounded families; f64 lattices restricted to well-conditioned members (tiny->0 twin nonsingular)");
     ctx.threshold("backward_error_banded_solve", BE_THRESHOLD);
     ctx.threshold("backward_error_complex_banded_solve", BE_THRESHOLD);
-    ctx.require(&["zero diagonal over non-zero sub-diagonal", "negative diagonal entry", "negative sub-diagonal larger in magnitude than positive pivot", "singular band", "row exchange needed", "has 1e-20 entries", "tiny/zero pivot above a negative sub-diagonal entry", "state with non-zero padding", "order >= 6"]);
+    ctx.require(&["wide band (m1 + m2 >= n)", "zero diagonal over non-zero sub-diagonal", "negative diagonal entry", "negative sub-diagonal larger in magnitude than positive pivot", "singular band", "row exchange needed", "has 1e-20 entries", "tiny/zero pivot above a negative sub-diagonal entry", "state with non-zero padding", "order >= 6"]);
 
     let cap = ctx.pick(150_000u64, 40_000_000u64);
+    all_bandwidths_space(&ctx, 6, 10);
     let leftover = exhaustive_spaces(&ctx, ctx.pick(4, 5), cap);
     deviation_space(&ctx, &leftover, 2, "(configurations too large for exhaustive filling)");
     ctx.lattice(
